@@ -26,7 +26,7 @@ Fixpoint parents_precedeb (seen : list str) (names : list str) : bool :=
       (seqb p [] || seqb p [dot; slash] || existsb (seqb p) seen) && parents_precedeb (n :: seen) rest
   end.
 
-Inductive c04_clause := WUnique | WRelative | WDotPrefix | WNoDotDot | WDirSlash | WParents | WStruct | WOrder.
+Inductive c04_clause := WUnique | WRelative | WDotPrefix | WNoDotDot | WDirSlash | WParents | WStruct | WOrder | WEmptyName.
 
 (* [names]: tar member names in archive order with whether the member is a directory *)
 Definition check_names (f : fmt) (members : list (str * bool)) : list c04_clause :=
@@ -37,6 +37,7 @@ Definition check_names (f : fmt) (members : list (str * bool)) : list c04_clause
   ++ fail (match f with FDeb | FIpk => forallb dot_prefixed names | _ => true end) WDotPrefix
   ++ fail (forallb no_dotdot names) WNoDotDot
   ++ fail (forallb (fun '(n, d) => negb d || has_suffix [slash] n || seqb n []) members) WDirSlash
+  ++ fail (negb (existsb (fun n => seqb n []) names)) WEmptyName
   ++ fail (parents_precedeb [] names) WParents.
 
 Definition check_C04 (f : fmt) (members : list (str * bool)) (struct_ok : bool) (order_ok : bool) : list c04_clause :=
